@@ -1077,6 +1077,12 @@ impl Transaction {
                 return false;
             }
 
+            // with staking disabled the producer attaches an empty staking transaction
+            // which spends nothing. it has nothing to authorize but must not create value.
+            if self.from.is_empty() {
+                return self.to.iter().all(|slip| slip.amount == 0);
+            }
+
             // staking transactions are signed by their sender like any other
             // user-originated transaction, so the checks below apply to them too
         }
